@@ -452,6 +452,8 @@ class MatInterp:
             if any(v is True for v in vals):
                 return True
             return False if all(v is False for v in vals) else None
+        if isinstance(t, ast.Name) and t.id in env and env[t.id].kind == 'bool':
+            return env[t.id].v
         if isinstance(t, ast.Compare) and len(t.ops) == 1:
             l, r, op = t.left, t.comparators[0], t.ops[0]
             state = self._state_of(l, env, fn)
@@ -519,6 +521,8 @@ class MatInterp:
             if e.id in env:
                 return env[e.id]
             raise Unknown('name %s' % e.id)
+        if isinstance(e, (ast.BoolOp, ast.Compare)) or (isinstance(e, ast.UnaryOp) and isinstance(e.op, ast.Not)):
+            return Val('bool', self.static_test(e, env, fn))          # a named truth value; None = not known statically
         op, inner = _strip_ops(e)
         if op is not None:
             v = self.ev(inner, env, fn)
